@@ -73,6 +73,25 @@ def doc_invalid_op():
     return doc
 
 
+def doc_broken_item():
+    """A path item behind a reference that cannot be resolved: an error that belongs to no single operation."""
+    doc = doc_four()
+    doc["paths"]["/broken"] = {"$ref": "#/components/x-path-items/DoesNotExist"}
+    return doc
+
+
+def doc_secured():
+    """One operation behind an apiKey header scheme and one open operation (for the checks that derive requests)."""
+    doc = base(
+        {
+            "/secure": {"get": {"operationId": "getSecure", "security": [{"Key": []}], "parameters": [int_param("x", "query")], "responses": copy.deepcopy(OK)}},
+            "/open": {"get": {"operationId": "getOpen", "parameters": [int_param("y", "query")], "responses": copy.deepcopy(OK)}},
+        },
+        components={"securitySchemes": {"Key": {"type": "apiKey", "in": "header", "name": "X-API-Key"}}},
+    )
+    return doc
+
+
 def doc_empty():
     return base({})
 
@@ -89,6 +108,8 @@ DOCS = {
     "two_linked": doc_two_linked,
     "four": doc_four,
     "invalid_op": doc_invalid_op,
+    "broken_item": doc_broken_item,
+    "secured": doc_secured,
     "empty": doc_empty,
     "eight": doc_eight,
 }
